@@ -42,7 +42,7 @@ def walk_thir(e, fn):
             walk_thir(v, fn)
 
 
-def census_crate(run, doc, cfgname, entry_reach_only=True):
+def census_crate(run, doc, cfgname, entry_reach_only=True, full=None):
     F = Facts(doc)
     crate = doc["crate"]
     tag = "%s[%s]" % (crate, cfgname)
@@ -55,7 +55,9 @@ def census_crate(run, doc, cfgname, entry_reach_only=True):
                sample={"static": s["path"], "ty": s["ty"], "verdict": "immutable, Freeze"} if ok else None)
     run.ob(True, "statics-census|%s" % tag, "C16-1", tag,
            sample={"crate": crate, "config": cfgname, "statics_found": len(doc["statics"])})
-    if crate != "string_calculator":
+    if full is None:
+        full = crate == "string_calculator"
+    if not full:
         return F
     # 3. unsafe / extern
     for m in doc["misc_items"]:
@@ -142,6 +144,8 @@ def main(tier):
     except extract.ExtractError as e:
         run.fail_closed("fact extraction failed", str(e)[-1500:])
         return run.finish("effect census", "./check C16 --tier %s" % tier)
+    from ..canary import effect_canary
+    effect_canary(run)
     F = census_crate(run, doc, "default")
     run.floor("entry points", len(F.evaluators_present()), 5)
     run.floor("reachable functions", len(F.reach()), 100)
